@@ -1197,11 +1197,14 @@ func parsePrimitiveCase(raw string, schema *openapi3.SchemaRef, typ string) (any
 		}
 		return v, nil
 	case "boolean":
-		v, err := strconv.ParseBool(raw)
-		if err != nil {
-			return nil, &ParseError{Kind: KindInvalidFormat, Value: raw, Reason: "an invalid " + typ, Cause: err.(*strconv.NumError).Err}
+		// a boolean is true or false: Go's other spellings (1, t, T, TRUE, 0, f, ...) are not
+		switch raw {
+		case "true":
+			return true, nil
+		case "false":
+			return false, nil
 		}
-		return v, nil
+		return nil, &ParseError{Kind: KindInvalidFormat, Value: raw, Reason: "an invalid " + typ, Cause: strconv.ErrSyntax}
 	case "string":
 		return raw, nil
 	default:
